@@ -8,6 +8,10 @@ use std::cell::RefCell;
 use syn::*;
 
 fn let_in(pat: &str, simple: bool, v: &str, rest: &str) -> String {
+    if simple && rest.trim() == pat {
+        // `let x := v in x`
+        return v.to_string();
+    }
     if simple {
         format!("let {} := {} in\n{}", pat, v, rest)
     } else {
@@ -49,6 +53,21 @@ impl<'a> Tr<'a> {
                 self.stmts_k(&b.block.stmts, env, hint, k)
             }
             Expr::If(i) => self.if_k(i, env, hint, k),
+            Expr::ForLoop(f) => {
+                // `for pat in [e1, .., en] { body }` over an array literal is unrolled
+                if f.label.is_some() {
+                    return Err(unsupported(e, "labelled loop"));
+                }
+                let mut it: &Expr = &f.expr;
+                while let Expr::Reference(r) = it {
+                    it = &r.expr;
+                }
+                let elems: Vec<&Expr> = match it {
+                    Expr::Array(a) => a.elems.iter().collect(),
+                    _ => return Err(unsupported(e, "for loop over something that is not an array literal (loops are not translated; array literals are unrolled)")),
+                };
+                self.for_unrolled(&f.pat, &elems, 0, &f.body, env, k)
+            }
             Expr::Match(m) => self.match_k(m, env, hint, k),
             Expr::Return(r) => {
                 let rt = self.ret_ty.clone();
@@ -177,6 +196,18 @@ impl<'a> Tr<'a> {
             }
             _ => Err(unsupported(first, "item declaration inside a function body")),
         }
+    }
+
+    fn for_unrolled(&mut self, pat: &Pat, elems: &[&Expr], i: usize, body: &Block, env: &Env, k: K) -> R<String> {
+        if i == elems.len() {
+            return k(self, unit());
+        }
+        let v = self.pure(elems[i], env, None)?;
+        let mut env2 = env.clone();
+        let ps = self.bind_pat(pat, &v.ty, &mut env2)?;
+        let simple = matches!(pat, Pat::Ident(_) | Pat::Wild(_));
+        let rest = self.stmts_k(&body.stmts, &env2, None, &|tr, _v| tr.for_unrolled(pat, elems, i + 1, body, env, k))?;
+        Ok(let_in(&ps, simple, &v.s, &rest))
     }
 
     fn body_k(&mut self, b: &Body, env: &Env, hint: Option<&Ty>, k: K) -> R<String> {
@@ -380,6 +411,15 @@ impl<'a> Tr<'a> {
                 let a = Val { s: format!("(fst {})", base.s), ty: ts[0].clone() };
                 let b = Val { s: format!("(snd {})", base.s), ty: ts[1].clone() };
                 if k == 0 {
+                    Ok(format!("({}, {})", self.update(&a, &path[1..], new, at)?, b.s))
+                } else {
+                    Ok(format!("({}, {})", a.s, self.update(&b, &path[1..], new, at)?))
+                }
+            }
+            Ty::Range(t) | Ty::RangeIncl(t) if fname == "start" || fname == "end" => {
+                let a = Val { s: format!("(fst {})", base.s), ty: (**t).clone() };
+                let b = Val { s: format!("(snd {})", base.s), ty: (**t).clone() };
+                if fname == "start" {
                     Ok(format!("({}, {})", self.update(&a, &path[1..], new, at)?, b.s))
                 } else {
                     Ok(format!("({}, {})", a.s, self.update(&b, &path[1..], new, at)?))
